@@ -1088,6 +1088,34 @@ pub fn main(args: &Args) {
             flt_case(&mut out, t, sfx);
         }
     }
+    // magnitude ladder (deterministic): whole-number floats and their neighbours around every boundary an
+    // integer conversion / fixed-width formatting shortcut in the printer could have (2^24, 2^31, 2^32, 2^53,
+    // 2^63, 2^64, 2^127, 2^128, ...) and powers of ten up to the top of each type. The lexer has no exponent
+    // syntax, so these are written with all their digits.
+    {
+        let mut ladder: Vec<String> = Vec::new();
+        for k in [24u32, 31, 32, 53, 62, 63, 64, 65, 100, 126, 127] {
+            let p = 1u128 << k;
+            for v in [p - 1, p, p + 1] {
+                ladder.push(format!("{}.0", v));
+            }
+            ladder.push(format!("{}.5", p));
+        }
+        ladder.push(format!("{}.0", u128::MAX)); // 2^128 - 1
+        ladder.push("340282366920938463463374607431768211456.0".to_string()); // 2^128
+        ladder.push("340282366920938463463374607431768211457.0".to_string());
+        for k in [9usize, 10, 15, 16, 18, 19, 20, 22, 23, 30, 38, 39, 100, 200, 300, 308] {
+            ladder.push(format!("1{}.0", "0".repeat(k)));
+            ladder.push(format!("9{}.0", "9".repeat(k.min(25))));
+        }
+        ladder.sort();
+        ladder.dedup();
+        for t in &ladder {
+            for sfx in ["f32", "f64", ""] {
+                flt_case(&mut out, t, sfx);
+            }
+        }
+    }
     let n_mid = if thorough { 600 } else { 60 };
     for i in 0..n_mid {
         // x: a random positive normal f32 of moderate exponent; m: the exact midpoint between x and its successor
